@@ -72,6 +72,10 @@ func (w *World) lemmaObligations(lm *Lemma) (obls []*Obligation, err error) {
 		ex.inputs = append(ex.inputs, ModelVar{Name: p.Name, Term: c, GoT: gt})
 	}
 	env := &SpecEnv{names: names, pkg: lm.Pkg, w: w}
+	if lm.TwoState {
+		// old(e): e in a second, arbitrary heap
+		env.old = &SpecEnv{names: names, pkg: lm.Pkg, w: w, heapOf: func(g *Term) *Term { return cnst(g.Op+"_old", g.S) }}
+	}
 	mkObl := func(name string, guard, goal *Term, src string) {
 		goal = ex.skolemGoal(goal)
 		o := &Obligation{Name: lm.Pkg + ".lemma." + lm.Name + "#" + name, Kind: "lemma", Func: lm.Pkg + ".lemma." + lm.Name, Guard: guard, Goal: goal, NDecl: len(ex.decls), Unfold: lm.Unfold, Props: lm.Props, Src: src, ex: ex, Inputs: ex.inputs, Reveal: lm.Reveal}
@@ -131,6 +135,9 @@ func (w *World) lemmaObligations(lm *Lemma) (obls []*Obligation, err error) {
 	}
 	ihNames[lm.Induction] = tv(km1, k.GoT)
 	ihEnv := &SpecEnv{names: ihNames, pkg: lm.Pkg, w: w}
+	if lm.TwoState {
+		ihEnv.old = &SpecEnv{names: ihNames, pkg: lm.Pkg, w: w, heapOf: func(g *Term) *Term { return cnst(g.Op+"_old", g.S) }}
+	}
 	var ihReq, ihEns []*Term
 	for _, c := range lm.Requires {
 		ihReq = append(ihReq, w.trSpec(c.E, ihEnv).T)
@@ -246,6 +253,9 @@ func cmdVerify(args []string) {
 	implProp := "-"
 	if *funcs == "" {
 		implProp = ""
+	}
+	for _, e := range w.CS.LoadErrors {
+		fmt.Println("CONTRACT-LOAD-ERROR", e)
 	}
 	reps := verifyKeys(w, keys, lemmas, *smtDir, *timeout, 16, *verbose, implProp)
 	bad := 0
